@@ -50,6 +50,61 @@ def gen_case(rng, idx, dwin=False):
             'dsq': rng.random() < 0.25 and mode != 'chan0', 'phase': phase, 'idx': idx, 'dwin': dwin}
 
 
+def gen_dwsel(rng, idx):
+    """separate stream: chain conv -> depthwise (-> conv) -> head, per-channel search with the 0-bit option and
+    disable_shared_quantizers=True (producer and depthwise layer have their OWN weight selectors); either the
+    producer prunes channels the depthwise layer keeps (then the depthwise bits are changed from a to b and the
+    cost DIFFERENCE is checked: not touched by the open 0-bit scaling finding), or vice versa.  Conv1d and Conv2d."""
+    dim = rng.choice([1, 2])
+    hw = rng.choice([4, 6, 8])
+    cin = rng.randint(2, 4)
+    nodes = [{'k': 'in', 'c': cin, 'hw': hw, 'dim': dim}]
+
+    def push(nd):
+        nodes.append(nd)
+        return len(nodes) - 1
+    cur, c = 0, cin
+    if rng.random() < 0.3:
+        c2 = rng.randint(2, 4)
+        cur = push({'k': 'conv', 'src': cur, 'cin': c, 'cout': c2, 'ks': rng.choice([1, 3]), 'stride': 1, 'bias': rng.random() < 0.7})
+        cur = push({'k': 'relu', 'src': cur, 'fn': rng.random() < 0.5})
+        c = c2
+    C = rng.randint(3, 6)
+    prod = cur = push({'k': 'conv', 'src': cur, 'cin': c, 'cout': C, 'ks': rng.choice([1, 3, 5]), 'stride': 1, 'bias': rng.random() < 0.7})
+    if dim == 2 and rng.random() < 0.4:
+        cur = push({'k': 'bn', 'src': cur, 'c': C, 'dim': 2})
+    if rng.random() < 0.6:
+        cur = push({'k': 'relu', 'src': cur, 'fn': rng.random() < 0.5})
+    if hw >= 4 and rng.random() < 0.3:
+        cur = push({'k': 'pool', 'src': cur, 't': rng.choice(['max2', 'avg2'])})
+        hw //= 2
+    dw = cur = push({'k': 'dw', 'src': cur, 'c': C, 'ks': 3, 'bias': rng.random() < 0.7})
+    if rng.random() < 0.5:
+        cur = push({'k': 'relu', 'src': cur, 'fn': rng.random() < 0.5})
+    c = C
+    if rng.random() < 0.6:
+        c2 = rng.randint(2, 5)
+        cur = push({'k': 'conv', 'src': cur, 'cin': c, 'cout': c2, 'ks': rng.choice([1, 3]), 'stride': 1, 'bias': rng.random() < 0.7})
+        cur = push({'k': 'relu', 'src': cur, 'fn': rng.random() < 0.5})
+        c = c2
+    if rng.random() < 0.5:
+        cur = push({'k': 'pool', 'src': cur, 't': 'adapt'})
+        hw = 1
+    cur = push({'k': 'flatten', 'src': cur, 'mult': hw ** dim})
+    push({'k': 'lin', 'src': cur, 'cin': c * hw ** dim, 'cout': rng.randint(2, 4), 'bias': rng.random() < 0.8})
+    nz = rng.sample(PRECS, rng.randint(2, 3))
+    wp = nz + [0]
+    rng.shuffle(wp)
+    a, b = rng.sample([k for k in range(len(wp)) if wp[k] != 0], 2)
+    npr = rng.randint(1, C - 1)
+    phase = 'hardtrain' if rng.random() < 0.3 else 'eval'
+    return {'nodes': nodes, 'seed': rng.randrange(1 << 30), 'aseed': rng.randrange(1 << 30), 'mode': 'chan0', 'ne16': False,
+            'ap': rng.sample(PRECS, rng.randint(1, 3)), 'wp': wp, 'T': round(math.exp(rng.uniform(math.log(0.05), math.log(20))), 4),
+            'gumbel': False, 'hard': phase == 'hardtrain' or rng.random() < 0.3, 'dsq': True, 'phase': phase, 'idx': idx, 'dwin': False,
+            'dwsel': {'variant': rng.choice(['prod-prunes', 'prod-prunes', 'dw-prunes']), 'prod': prod, 'dw': dw, 'a': a, 'b': b,
+                      'pruned': sorted(rng.sample(range(C), npr))}}
+
+
 def _ltype(nd):
     return 'dw' if G.is_dw(nd) else nd['k']
 
@@ -65,7 +120,7 @@ def run_case(c):
         from plinio.methods.mps import MPSType, get_default_qinfo
         from plinio.cost import CostSpec, params_bit, ops_bit
         from plinio.cost.mpic_latency import mpic_latency
-        from plinio.cost.pattern import Conv2dGeneric, LinearGeneric, Conv2dDW
+        from plinio.cost.pattern import Conv2dGeneric, LinearGeneric, Conv2dDW, Conv1dGeneric, Conv1dDW
         nodes = c['nodes']
         shp = G.shapes(nodes)
         m = G.build(nodes, c['seed'])
@@ -86,14 +141,17 @@ def run_case(c):
             ps = CostSpec(shared=True, default_behavior='zero')
             ps[Conv2dGeneric] = probe(which, 'conv')
             ps[Conv2dDW] = probe(which, 'dw')
+            ps[Conv1dGeneric] = probe(which, 'conv')
+            ps[Conv1dDW] = probe(which, 'dw')
             ps[LinearGeneric] = probe(which, 'lin')
             specs['probe_' + which] = ps
         if c['ne16']:
             from plinio.cost.ne16_latency import ne16_latency
             specs['ne16'] = ne16_latency
-        ci, hw = nodes[0]['c'], nodes[0]['hw']
+        ishape = G.input_shape(nodes)
+        dim = nodes[0].get('dim', 2)
         stage = 'convert'
-        p = MPS(m, input_shape=(ci, hw, hw), qinfo=get_default_qinfo(tuple(c['wp']), tuple(c['ap'])), cost=specs,
+        p = MPS(m, input_shape=ishape, qinfo=get_default_qinfo(tuple(c['wp']), tuple(c['ap'])), cost=specs,
                 w_search_type=MPSType.PER_LAYER if c['mode'] == 'layer' else MPSType.PER_CHANNEL,
                 temperature=c['T'], gumbel_softmax=c['gumbel'], hard_softmax=c['hard'], disable_shared_quantizers=c['dsq'])
         rng = random.Random(c['aseed'])
@@ -102,8 +160,30 @@ def run_case(c):
         for i, (name, mod) in L.items():
             if hasattr(mod, 'weight'):
                 wid[id(mod.weight)] = i
+        ds = c.get('dwsel')
+
+        def setcols(mod, sel):
+            a_ = torch.full_like(mod.w_mps_quantizer.alpha, -1.0)
+            for ch, k_ in enumerate(sel):
+                a_[k_, ch] = 1.0
+            with torch.no_grad():
+                mod.w_mps_quantizer.alpha.copy_(a_)
+        if ds:
+            pm, dm = L[ds['prod']][1], L[ds['dw']][1]
+            if pm.w_mps_quantizer is dm.w_mps_quantizer:
+                raise RuntimeError('disable_shared_quantizers=True but producer and depthwise layer share a weight selector')
+            z = c['wp'].index(0)
+            nzi = [k_ for k_ in range(len(c['wp'])) if k_ != z]
+            Cd = nodes[ds['dw']]['c']
+            prunesel = [z if ch in ds['pruned'] else rng.choice(nzi) for ch in range(Cd)]
+            if ds['variant'] == 'prod-prunes':
+                setcols(pm, prunesel)
+                setcols(dm, [ds['a']] * Cd)
+            else:
+                setcols(pm, [rng.choice(nzi) for _ in range(Cd)])
+                setcols(dm, prunesel)
         g = torch.Generator().manual_seed(c['seed'] ^ 0x5bd1)
-        x = torch.rand(2, ci, hw, hw, generator=g)
+        x = torch.rand((2,) + ishape, generator=g)
         stage = 'forward'
         if c['phase'] == 'eval':
             p.eval()
@@ -137,8 +217,9 @@ def run_case(c):
                    'pw': [int(v) for v in wq.precision],
                    'tw': [float(v) for v in th] if th.dim() == 1 else [[float(v) for v in row] for row in th],
                    'zero': getattr(wq, 'zero_index', None), 'wq': id(wq)}
-            ent['geom'] = ([nd['cin'], nd['cout'], nd['ks'], nd['ks'], shp[i][1], shp[i][1]] if nd['k'] == 'conv' else
-                           [nd['c'], nd['c'], nd['ks'], nd['ks'], shp[i][1], shp[i][1]] if nd['k'] == 'dw' else
+            k2, h2 = (nd.get('ks', 1), shp[i][1]) if dim == 2 else (1, 1)
+            ent['geom'] = ([nd['cin'], nd['cout'], nd['ks'], k2, shp[i][1], h2] if nd['k'] == 'conv' else
+                           [nd['c'], nd['c'], nd['ks'], k2, shp[i][1], h2] if nd['k'] == 'dw' else
                            [nd['cin'], nd['cout'], 1, 1, 1, 1])
             layers[i] = ent
         # LUT specs: the table of cost_fn values at every precision pair, from the spec's own function on
@@ -150,7 +231,7 @@ def run_case(c):
                     continue
                 for i, ent in layers.items():
                     v0 = dict(orig_vars[i])
-                    v0['output_shape'] = (2, shp[i][0]) + ((shp[i][1], shp[i][1]) if shp[i][1] else ())
+                    v0['output_shape'] = (2, shp[i][0]) + (((shp[i][1],) * dim) if shp[i][1] else ())
                     fn = specs[sk][(type(orig[i]), v0)]
                     tab = []
                     for ip in ent['pin']:
@@ -162,6 +243,14 @@ def run_case(c):
                         tab.append(row)
                     ent['tab_' + sk] = tab
         obs['layers'] = {str(k): v for k, v in layers.items()}
+        if ds and ds['variant'] == 'prod-prunes':
+            stage = 'second-run'
+            setcols(L[ds['dw']][1], [ds['b']] * nodes[ds['dw']]['c'])
+            with torch.no_grad():
+                p(x)
+                obs['costs2'] = {k: float(p.get_cost(k)) for k in ('pb', 'ob')}
+            s2 = p.summary()
+            obs['summary2'] = {str(i): {k: v for k, v in s2[name].items() if k != 'type'} for i, (name, mod) in L.items() if str(i) in obs['layers']}
     except Exception as ex:
         import traceback
         obs['exc'] = 'EXC:%s:%s:%s' % (stage, type(ex).__name__, str(ex)[:200])
@@ -171,30 +260,34 @@ def run_case(c):
 
 def expected(c, o):
     """exact costs of the assignment summary() reports, from the IR and summary() only.
-    returns per-spec totals {'pb','ob','pb_scaled','ob_scaled'} and per-layer effective (in,out) features"""
+    Alive channels are tracked as masks: a conv / linear layer's output channel is alive iff its selected
+    weight precision is not 0; a depthwise layer's output channel is alive iff its own precision is not 0 AND its
+    input channel is alive (matters only when it has its own selector, disable_shared_quantizers=True).
+    A layer's own cost counts ITS weights x ITS bits.  Returns totals {'pb','ob','pb_scaled','ob_scaled'} and per
+    layer (effective input features, own alive output channels)."""
     nodes = c['nodes']
-    shp = G.shapes(nodes)
-    eff = {}       # node -> alive features of its output tensor
+    mask = {}      # node -> list of bools (alive features of its output tensor)
     feats = {}
     tot = {'pb': 0, 'ob': 0, 'pb_scaled': Fraction(0), 'ob_scaled': Fraction(0)}
     for i, nd in enumerate(nodes):
         k = nd['k']
         if k == 'in':
-            eff[i] = nd['c']
+            mask[i] = [True] * nd['c']
         elif k in ('bn', 'relu', 'pool'):
-            eff[i] = eff[nd['src']]
+            mask[i] = mask[nd['src']]
         elif k == 'flatten':
-            eff[i] = eff[nd['src']] * nd['mult']
+            mask[i] = [b for b in mask[nd['src']] for _ in range(nd['mult'])]
         elif k == 'add':
-            eff[i] = eff[nd['src'][0]]
+            mask[i] = mask[nd['src'][0]]
         else:
             ent = o['layers'][str(i)]
             s = ent['summary']
             wps = s['w_precision'] if isinstance(s['w_precision'], list) else [s['w_precision']] * ent['geom'][1]
             C = len(wps)
-            alive = sum(1 for q in wps if q != 0)
-            ein = eff[nd['src']]
-            eff[i] = alive
+            own = [q != 0 for q in wps]
+            alive = sum(own)
+            ein = sum(mask[nd['src']])
+            mask[i] = [a and b for a, b in zip(own, mask[nd['src']])] if ent['type'] == 'dw' else own
             feats[i] = (ein, alive)
             kk = ent['geom'][2] * ent['geom'][3]
             hw2 = ent['geom'][4] * ent['geom'][5]
@@ -212,6 +305,7 @@ def near(a, b, rel=1e-5):
     return isinstance(a, float) and abs(a - float(b)) <= rel * max(1.0, abs(float(b)))
 
 
+DWSEL_KEY = 'spec-keys:consumer-of-depthwise-with-own-selector-not-shown-surviving-channels'
 DWIN_KEY = 'spec-keys:consumer-of-pruned-depthwise-in-network-input-group'
 
 
@@ -264,6 +358,32 @@ def oracle(c, o):
             if sh[ok_] != eout:
                 out.append(('spec-keys:%s-not-shown-effective-%s' % ({'lin': 'linear', 'conv': 'conv', 'dw': 'dw'}[kd], ok_),
                             'layer node %d (%s): cost function shown %s=%r, effective output features %r (all keys shown: %r)' % (node, kd, ok_, sh[ok_], eout, sh)))
+    ds = c.get('dwsel')
+    if ds and ds['variant'] == 'prod-prunes' and 'costs2' in o:
+        # only the depthwise layer's bits changed (a -> b, all its channels kept): every other layer's cost
+        # term is untouched, so the difference must be exactly (its own weights / MACs) x delta bits
+        ent = o['layers'][str(ds['dw'])]
+        s1, s2 = ent['summary'], o['summary2'][str(ds['dw'])]
+        C = ent['geom'][1]
+        pa, pb_ = c['wp'][ds['a']], c['wp'][ds['b']]
+        others_same = all(o['summary2'][i] == v['summary'] for i, v in o['layers'].items() if i != str(ds['dw']))
+        if s1['w_precision'] == [pa] * C and s2['w_precision'] == [pb_] * C and others_same:
+            kk, hw2 = ent['geom'][2] * ent['geom'][3], ent['geom'][4] * ent['geom'][5]
+            for k, name, exp in (('pb', 'params_bit', kk * C * (pb_ - pa)), ('ob', 'ops_bit', kk * C * (pb_ - pa) * hw2 * s1['in_precision'])):
+                got = o['costs2'][k] - costs[k]
+                if isinstance(costs[k], float) and abs(got - exp) > 1e-5 * max(1.0, abs(exp), abs(costs[k])):
+                    out.append(('cost-difference-not-weights-x-delta-bits:depthwise-own-selector:' + name,
+                                '%s: depthwise layer node %d (%d channels, all kept; its producer keeps %d) changes from %d to %d bits: get_cost changes by %r, its own weights%s x delta bits = %r'
+                                % (name, ds['dw'], C, C - len(ds['pruned']), pa, pb_, got, '' if k == 'pb' else ' (MACs) x input bits', exp)))
+        else:
+            out.append(('harness:dwsel-selection-not-as-set', 'summary() does not show the selection the case set: %r / %r' % (s1, s2)))
+    if ds:
+        # own-selector stream: a consumer shown something else than the channels surviving BOTH the depthwise layer
+        # and its producer is one call site (own key); totals are then consequences and not reported separately
+        bad = [w for k, w in out if k.startswith('spec-keys:') and k.endswith(('in_channels', 'in_features')) and not k.startswith('spec-keys:dw')]
+        if bad:
+            out = [(k, w) for k, w in out if k.startswith('cost-difference')] + \
+                  [(DWSEL_KEY, bad[0] + ' [depthwise layer with its own weight selector (disable_shared_quantizers=True): %s]' % ds['variant'])]
     seen = set()
     return [(k, w) for k, w in out if not (k in seen or seen.add(k))]
 
@@ -275,25 +395,31 @@ def model_exprs(c, o, fixed):
     """Coq expressions: per layer and per cost id (0 params_bit, 1 ops_bit, 2 probe_in, 3 probe_out) + tables"""
     nodes = c['nodes']
     ex, tags = [], []
-    # effective features from the implementation's sampled coefficients (one-hot in these modes)
-    eff = {}
+    # effective features from the implementation's sampled coefficients (one-hot in these modes), propagated the
+    # way the code does (add_features_calculator / associate_input_features): a layer reads the calculator of the
+    # node that "sets its input features" = the features-defining producer or a flatten; a depthwise layer is
+    # features-propagating (skipped by that walk) but has its own calculator, which a flatten behind it reads
+    fc, sb, own = {}, {}, {}     # features calculator value of a node; node whose calculator its consumers read
     for i, nd in enumerate(nodes):
         k = nd['k']
         if k == 'in':
-            eff[i] = Fraction(nd['c'])
+            fc[i], sb[i] = Fraction(nd['c']), i
         elif k in ('bn', 'relu', 'pool'):
-            eff[i] = eff[nd['src']]
+            fc[i], sb[i] = fc[nd['src']], sb[nd['src']]
         elif k == 'flatten':
-            eff[i] = eff[nd['src']] * nd['mult']
+            fc[i], sb[i] = fc[nd['src']] * nd['mult'], i
         elif k == 'add':
-            eff[i] = eff[nd['src'][0]]
+            fc[i], sb[i] = fc[sb[nd['src'][0]]], sb[nd['src'][0]]
         else:
             ent = o['layers'][str(i)]
             C = Fraction(ent['geom'][1])
             if isinstance(ent['tw'][0], list) and ent['zero'] is not None:
-                eff[i] = C - sum(Fraction(v) for v in ent['tw'][ent['zero']])
+                own[i] = C - sum(Fraction(v) for v in ent['tw'][ent['zero']])
             else:
-                eff[i] = C
+                own[i] = C
+            fc[i] = own[i]
+            sb[i] = sb[nd['src']] if ent['type'] == 'dw' else i
+            eff = {nd['src']: fc[sb[nd['src']]]}
             ein = eff[nd['src']]
             geom = [Fraction(v) for v in ent['geom']]
             pin = [Fraction(v) for v in ent['pin']]
@@ -306,7 +432,7 @@ def model_exprs(c, o, fixed):
                     ex.append('run_layer_pc %s %s %s %s %s %s %s %s %s %s' % (coq(fixed), coq(Nat(cid)), TYPES[ent['type']], coq(geom), coq(ein), coq(pin), coq(tin), coq(pw), coq(th), coq(z)))
                 else:
                     tw = [Fraction(v) for v in ent['tw']]
-                    ex.append('run_layer %s %s %s %s %s %s %s %s %s %s' % (coq(fixed), coq(Nat(cid)), TYPES[ent['type']], coq(geom), coq(ein), coq(eff[i]), coq(pin), coq(tin), coq(pw), coq(tw)))
+                    ex.append('run_layer %s %s %s %s %s %s %s %s %s %s' % (coq(fixed), coq(Nat(cid)), TYPES[ent['type']], coq(geom), coq(ein), coq(own[i]), coq(pin), coq(tin), coq(pw), coq(tw)))
                 tags.append(('pb', 'ob', 'probe_in', 'probe_out')[cid])
             for sk in ('mpic', 'ne16'):
                 if 'tab_' + sk in ent:
@@ -319,6 +445,7 @@ def run(ctx):
     built = ctx.build()
     ctx.rule = ('grammar networks of vlib/mps_gen.py x search mode {per-layer (1/2), per-channel, per-channel with 0-bit (1/3)} x precision tuples from {2,4,8} (+0), any order x random alpha with arg-max margin '
                 'x temperature in [0.05,20] x gumbel/hard/disable_shared_quantizers flags x phase {eval, training with hard non-Gumbel sampling}; NE16 cases: activations (8,), kernels {1,3}. '
+                'separate streams: (a) pruned depthwise layer in the network-input group (open finding, own key); (b) disable_shared_quantizers=True x per-channel 0-bit x chain conv -> depthwise (Conv1d and Conv2d) where the producer prunes channels the depthwise layer keeps (cost DIFFERENCE when only the depthwise bits change must be own weights x delta bits) or vice versa. '
                 'one case = one network with one coefficient assignment, 5-6 cost specs; distinct by (architecture, mode, precisions, selected assignment); non-trivial = some layer has >= 2 candidate weight precisions')
     n = 240 if ctx.quick else 2400
     cases = []
@@ -332,6 +459,8 @@ def run(ctx):
         cases.append(gen_case(ctx.rng, i))
     for i in range(8 if ctx.quick else 40):
         cases.append(gen_case(ctx.rng, n + i, dwin=True))
+    for i in range(24 if ctx.quick else 200):
+        cases.append(gen_dwsel(ctx.rng, n + 100 + i))
     with ProcessPoolExecutor(min(NPROC, 8), mp_context=mp.get_context('fork')) as ex:
         obs = list(ex.map(run_case, cases, chunksize=8))
 
@@ -344,6 +473,8 @@ def run(ctx):
         ctx.case(key, nontrivial=len(c['wp']) > 1, kind='exc' if o['exc'] else c['mode'] + ':' + c['phase'],
                  sample={'nodes': kinds, 'mode': c['mode'], 'phase': c['phase'], 'ap': c['ap'], 'wp': c['wp'], 'T': c['T'], 'costs': o.get('costs')})
         ctx.dist['ne16:%s' % c['ne16']] += 1
+        if c.get('dwsel'):
+            ctx.dist['dwsel:%s:%dd' % (c['dwsel']['variant'], c['nodes'][0].get('dim', 2))] += 1
         if c['mode'] == 'chan0' and not o['exc']:
             if any(isinstance(v['summary']['w_precision'], list) and 0 in v['summary']['w_precision'] for v in o['layers'].values()):
                 pruned_cases += 1
